@@ -7934,7 +7934,7 @@ def aten_prod(self: TReal, dtype: int = -1) -> TReal:
 
     if dtype != -1 and dtype is not None:
         self = op.Cast(self, to=dtype)
-    elif self.dtype.is_integer():
+    elif self.dtype.is_integer() or self.dtype == ir.DataType.BOOL:
         self = op.Cast(self, to=INT64.dtype)
     return op.ReduceProd(self, keepdims=False)
 
@@ -7945,6 +7945,9 @@ def aten_prod_dim_int(self: TReal, dim: int, keepdim: bool = False, dtype: int =
 
     if dtype != -1 and dtype is not None:
         self = op.Cast(self, to=dtype)
+    elif self.dtype.is_integer() or self.dtype == ir.DataType.BOOL:
+        # PyTorch promotes integral inputs to int64
+        self = op.Cast(self, to=INT64.dtype)
     return op.ReduceProd(self, axes=[dim], keepdims=keepdim)
 
 
